@@ -30,6 +30,7 @@ RULE = ('case = one temporary tree (outside /repo and /verif, removed afterwards
         'independently computed include closure exactly once and visits exactly that set; when the block raises or an include matches '
         'nothing, no write/remove/mkdir event occurs and the snapshot is identical. Non-trivial = >=2 files or a filesystem change '
         'expected; distinct = hash(tree bytes, spelling, mode).')
+RULE += (' Also (round 8): sessions over a file that is a symbolic link (relative / absolute) or has a hard-linked second name - the link stays a link, both names show the new content, no directory entry appears or vanishes.')
 ASSUMPTIONS = ['the expectation for edited files uses the real parser/printer (decided by C01-C03)',
                'the include closure is recomputed with glob.glob(recursive=True) + normpath de-duplication']
 
